@@ -23,6 +23,20 @@ def pool_entities(p):
     return out
 
 
+def _construct(w):
+    """Key of a write: what is written + the statement of the ENTITY function through which it happens
+    (not the callee the write sits in: refactoring a helper must not re-key a finding)."""
+    from ..effects import stmt_in_frame
+    if w.ev.stack:
+        try:
+            _, st0 = stmt_in_frame(w.ev, 0)
+        except Exception:
+            st0 = None
+        if st0 is not None:
+            return f"{w.locname()} {w.kind} ({w.how}) via `{norm_stmt(st0, 80)}`"
+    return f"{w.locname()} {w.kind} in {w.ev.fi.qual}: {norm_stmt(w.ev.node)}"
+
+
 def check_entity(p, report, ci, f, it, r_param="R5.1", r_arr="R5.2", r_est="R5.3", ent=None, only_params=None):
     ent = ent or f"{ci.name}.{f.name}"
     init = p.init_stored_attrs(ci)
@@ -42,7 +56,7 @@ def check_entity(p, report, ci, f, it, r_param="R5.1", r_arr="R5.2", r_est="R5.3
                 # repeated-call clause is decided under C06 (R6.4)
                 continue
             hit_params.add(path[0])
-            construct = f"{w.locname()} {w.kind} in {w.ev.fi.qual}: {norm_stmt(w.ev.node)}"
+            construct = _construct(w)
             what = ("constructor parameter rebound" if (w.kind == "store" and len(path) == 1)
                     else "object held by a constructor parameter mutated (" + str(w.how) + ")")
             report.add(r_param, ent, construct, w.ev.loc, False, detail=what, path=w.ev.path())
@@ -58,7 +72,7 @@ def check_entity(p, report, ci, f, it, r_param="R5.1", r_arr="R5.2", r_est="R5.3
             if rid is None:
                 continue
             hit_args.add(pname)
-            construct = f"{w.locname()} {w.kind} in {w.ev.fi.qual}: {norm_stmt(w.ev.node)}"
+            construct = _construct(w)
             what = ("estimator passed by the caller is fitted/altered (no private clone)" if is_est
                     else "array/object passed by the caller is mutated in place (" + str(w.how) + ")")
             report.add(rid, ent, construct, w.ev.loc, False, detail=what, path=w.ev.path())
